@@ -366,7 +366,10 @@ def make_env():
         docs[n] = S.build(c14.POOL[n], figdir)
     # texts that no UTF-8 file can hold as they are: lone surrogates (os.fsdecode of an undecodable file name),
     # next to ordinary non-ASCII - rtf_encode() returns pure ASCII for them and so the export must work
-    hard = {"kind": "table", "df": c14.tagged(3, 2), "body": {},
+    hard_df = c14.tagged(3, 2)
+    hard_df["cols"][1]["name"] = "Gr" + chr(0xF6) + chr(0xDF) + "e"
+    hard_df["cols"].append({"name": chr(0x5E74) + chr(0x9F62), "dtype": "str", "values": [chr(0xB5) + "g", "x" + chr(0xB2), chr(0x394) + "AUC"]})
+    hard = {"kind": "table", "df": hard_df, "body": {},
             "title": {"text": "TT0 caf" + chr(0xE9) + " " + chr(0xDCE9) + chr(0xD800) + " " + chr(0x1F600)},
             "footnote": {"text": "FN0 " + chr(0xDFFF), "as_table": False},
             "page_footer": {"text": "PF0 " + chr(0xDC80)}}
